@@ -149,8 +149,15 @@ type observation struct {
 
 func observe(d ldiff.Diff, qr []ldiff.Range) observation {
 	o := observation{Hash: d.Hash(), Len: d.Len(), Elements: d.Elements()}
-	rr, _ := d.Ranges(context.Background(), qr, nil)
-	o.Ranges = append(o.Ranges, rr...)
+	// one request per range: the query ranges overlap on purpose, and a single request whose ranges are together
+	// wider than the hash space is refused
+	for _, r := range qr {
+		rr, err := d.Ranges(context.Background(), []ldiff.Range{r}, nil)
+		if err != nil || len(rr) != 1 {
+			panic(fmt.Sprintf("c08: Ranges(%v) = %d results, %v", r, len(rr), err))
+		}
+		o.Ranges = append(o.Ranges, rr[0])
+	}
 	return o
 }
 
